@@ -815,7 +815,11 @@ func (d decoder) unmarshalTimestamp(m protoreflect.Message) error {
 	if secs < minTimestampSeconds || secs > maxTimestampSeconds {
 		return d.newError(tok.Pos(), "%v value out of range: %v", genid.Timestamp_message_fullname, tok.RawString())
 	}
-	// Validate subseconds.
+	// Validate subseconds. RFC 3339 separates them with a period only;
+	// time.Parse also accepts a comma.
+	if strings.IndexByte(s, ',') >= 0 {
+		return d.newError(tok.Pos(), "invalid %v value %v", genid.Timestamp_message_fullname, tok.RawString())
+	}
 	i := strings.LastIndexByte(s, '.')  // start of subsecond field
 	j := strings.LastIndexAny(s, "Z-+") // start of timezone field
 	if i >= 0 && j >= i && j-i > len(".999999999") {
